@@ -32,6 +32,7 @@ SITES = {
     "replay_inorder": "trees.transitions.inorder",
     "replay_gap": "trees.transitions.gap",
     "sentence": "trees.transitions.topdown",
+    "io_definition": "trees.transitions._inorder",
     "writer_plain": "trees.transitionoutput.plain",
     "cli": "trees.transitions.run",
 }
@@ -293,6 +294,46 @@ def _c_replay(system):
     return fn
 
 
+def c_io_definition(ctx, spec):
+    """validation of the definition the deductive contract of _inorder is stated against (contracts/c10.py io_def):
+    IO(x) = seg(c_0) ++ [PJ-label(x)] ++ seg(c_1) ++ ... ++ [REDUCE] over the children ordered by least token, with
+    its length / prefix-sum clauses, is what the real function returns for every constituent of the tree"""
+    if not _in_domain("inorder", spec):
+        raise Skip()
+    trees = ctx.mod("trees")
+    tr = ctx.mod("transitions")
+    root = tg.build(spec, trees)
+
+    def least(n):
+        return n.data["num"] if not n.children else min(least(c) for c in n.children)
+
+    def io(x):
+        kids = sorted(x.children, key=least)
+        segs = [["SHIFT"] if not c.children else io(c) for c in kids]
+        ss = [0]
+        for sg in segs:
+            ss.append(ss[-1] + len(sg))
+        out = segs[0] + ["PJ-%s" % x.data["label"]]
+        for sg in segs[1:]:
+            out += sg
+        out.append("REDUCE")
+        # the clauses of io_def
+        assert len(out) == ss[len(kids)] + 2 and len(out) >= 3 and out[ss[1]] == "PJ-%s" % x.data["label"]
+        assert all(a <= b for a, b in zip(ss, ss[1:]))
+        for k, sg in enumerate(segs):
+            off = ss[k] + (1 if k >= 1 else 0)
+            assert out[off:off + len(sg)] == sg
+        return out
+    for x in tg.all_nodes(root):
+        if not x.children:
+            continue
+        exp = io(x)
+        got = [str(t) for t in tr._inorder(x)]
+        if got != exp:
+            return (exp, got)
+    return None
+
+
 def c_sentence(ctx, w):
     system, spec = w["sys"], w["spec"]
     if not _in_domain(system, spec):
@@ -366,7 +407,7 @@ def c_cli(ctx, w):
 
 
 CLAUSES = {"replay_topdown": _c_replay("topdown"), "replay_inorder": _c_replay("inorder"),
-           "replay_gap": _c_replay("gap"), "sentence": c_sentence,
+           "replay_gap": _c_replay("gap"), "sentence": c_sentence, "io_definition": c_io_definition,
            "writer_plain": c_writer_plain, "cli": c_cli}
 
 CLAUSES = dict((k, lm.guard(v)) for k, v in CLAUSES.items())
@@ -474,6 +515,8 @@ def generate(ctx):
             seen.add(key)
             k = _nt(spec)
             yield "replay_" + system, spec, k
+            if system == "inorder":
+                yield "io_definition", spec, k
             if len(seen) % 7 == 0:
                 yield "sentence", {"sys": system, "spec": spec}, k
             pools[system].append(spec)
